@@ -11,13 +11,47 @@ Local Open Scope list_scope.
 Definition c_arity (t : ftab) (f : fnid) : nat :=
   match fent_at t f with Some e => fe_arity e | None => 0%nat end.
 
+Lemma lookups_length ks en : forall vs, lookups ks en = Some vs -> length vs = length ks.
+Proof.
+  induction ks as [|k r IH]; intros vs H; cbn [lookups] in H.
+  - inversion H. reflexivity.
+  - destruct (lookup k en); [|discriminate]. destruct (lookups r en) as [l|]; [|discriminate].
+    inversion H. cbn. f_equal. apply IH. reflexivity.
+Qed.
+
+Lemma lookups_nth ks en : forall vs i x, lookups ks en = Some vs -> nth_error ks i = Some x ->
+  exists v, nth_error vs i = Some v /\ lookup x en = Some v.
+Proof.
+  induction ks as [|k r IH]; intros vs i x H Hn; [destruct i; discriminate|].
+  cbn [lookups] in H. destruct (lookup k en) as [v0|] eqn:Hk; [|discriminate].
+  destruct (lookups r en) as [l|] eqn:Hr; [|discriminate]. inversion H; subst vs.
+  destruct i as [|i]; cbn [nth_error] in Hn |- *.
+  - inversion Hn; subst. exists v0. split; [reflexivity|exact Hk].
+  - exact (IH l i x eq_refl Hn).
+Qed.
+
+Lemma lookups_select margs en vs : lookups margs en = Some vs ->
+  forall I sm, select I margs = Some sm -> exists ws, select I vs = Some ws /\ lookups sm en = Some ws.
+Proof.
+  intros H. induction I as [|i r IH]; intros sm Hs; cbn [select] in Hs.
+  - inversion Hs. exists []. split; reflexivity.
+  - destruct (nth_error margs i) as [x|] eqn:Hn; [|discriminate].
+    destruct (select r margs) as [t|] eqn:Hr; [|discriminate]. inversion Hs; subst sm.
+    destruct (lookups_nth _ _ _ _ _ H Hn) as [v [Hv Hl]]. destruct (IH t eq_refl) as [ws [Hw Hlw]].
+    exists (v :: ws). cbn [select lookups]. rewrite Hv, Hw, Hl, Hlw. split; reflexivity.
+Qed.
+
 Lemma c_translate_sound t f margs e :
   c_translate t f margs = Some e ->
   forall en vs, lookups margs en = Some vs -> c_eval e en = c_fsem t f vs.
 Proof.
   unfold c_translate, c_eval, c_fsem. destruct (fent_at t f) as [en0|]; [|discriminate].
-  destruct (fe_ok en0 && Nat.eqb (length margs) (fe_arity en0)); [|discriminate].
-  intros H en vs Hl. inversion H; subst. cbn [fst snd]. rewrite Hl. reflexivity.
+  destruct (fe_ok en0); cbn [andb]; [|discriminate].
+  destruct (Nat.eqb (length margs) (fe_arity en0)) eqn:El; [|discriminate].
+  destruct (select (fe_sel en0) margs) as [sm|] eqn:Hs; [|discriminate].
+  intros H en vs Hl. inversion H; subst. cbn [fst snd].
+  rewrite (lookups_length _ _ _ Hl), El.
+  destruct (lookups_select _ _ _ Hl _ _ Hs) as [ws [Hw Hlw]]. rewrite Hw, Hlw. reflexivity.
 Qed.
 
 Lemma c_translate_arity t f margs e : c_translate t f margs = Some e -> length margs = c_arity t f.
@@ -37,19 +71,10 @@ Proof.
   cbn [combine lookup first_index]. destruct (N.eqb x p); [reflexivity|]. cbn [nth_error]. apply IH. cbn in Hl. lia.
 Qed.
 
-Fixpoint sel (I : list nat) (vs : list Z) : option (list Z) :=
-  match I with
-  | [] => Some []
-  | i :: r => match nth_error vs i, sel r vs with
-              | Some v, Some l => Some (v :: l)
-              | _, _ => None
-              end
-  end.
-
 Lemma lookups_combine_idx ps vs ma : length vs = length ps ->
-  lookups ma (combine ps vs) = sel (map (fun x => first_index x ps) ma) vs.
+  lookups ma (combine ps vs) = select (map (fun x => first_index x ps) ma) vs.
 Proof.
-  intros Hl. induction ma as [|x r IH]; [reflexivity|]. cbn [lookups map sel].
+  intros Hl. induction ma as [|x r IH]; [reflexivity|]. cbn [lookups map select].
   rewrite (lookup_combine_idx ps vs x Hl), IH. reflexivity.
 Qed.
 
@@ -95,8 +120,7 @@ Definition table_arity_ok (t : ftab) : bool :=
 Lemma c_fsem_arity t : table_arity_ok t = true ->
   forall f vs, length vs <> c_arity t f -> c_fsem t f vs = None.
 Proof.
-  intros Ht f vs. unfold c_arity, c_fsem, fent_at. destruct (nth_error t (N.to_nat f)) as [e|] eqn:Hn; [|reflexivity].
-  intros Hl. unfold table_arity_ok in Ht. rewrite forallb_forall in Ht. specialize (Ht e (nth_error_In _ _ Hn)).
-  destruct (lib_arity (fe_sem e)) as [n|] eqn:Ha; [|discriminate]. apply Nat.eqb_eq in Ht. subst n.
-  exact (lib_fsem_arity _ _ _ Ha Hl).
+  intros _ f vs. unfold c_arity, c_fsem. destruct (fent_at t f) as [e|]; [|reflexivity].
+  intros Hl. destruct (Nat.eqb (length vs) (fe_arity e)) eqn:El; [|reflexivity].
+  apply Nat.eqb_eq in El. contradiction.
 Qed.
